@@ -8,7 +8,11 @@ Decided statically (DESIGN 4/C18):
   GRADSHAPE hand-written gradient literals have one matrix per parameter
             and the same shape as the unitary literal
   SIBTEMP   temporaries shared by get_unitary / get_grad are defined equally
-Numerical content (unitarity, derivative values, calc_params) is not decided.
+  GRADSYM   where both are written out over sin/cos/phases of the parameters,
+            get_grad is the symbolic derivative of get_unitary entry by entry
+  KRONFOLD, INSERTORD, ADJOINT, ATAN  (see the rule modules)
+Numerical content beyond that (unitarity, derivatives of delegating or
+expm-based gates, calc_params) is not decided.
 """
 from __future__ import annotations
 
@@ -53,6 +57,9 @@ def run(ctx: Ctx, rep: Report) -> None:
     override(ctx, rep, gates)
     triad(ctx, rep, gates)
     gradshape(ctx, rep, gates)
+    # hand-written gradients are the symbolic derivative of the unitary
+    from ..rules.gradsym import rule_gradsym
+    rule_gradsym(ctx, rep, gates, 4)
     # order-sensitive folds: tensor factors by qudit, inserts by index
     from ..rules.foldorder import rule_insertord
     from ..rules.foldorder import rule_kronfold
